@@ -48,6 +48,10 @@ type c31Op struct {
 	Pct int `json:"pct,omitempty"`
 	// rotate: when the maintenance cycle near the drop of ID happens: "before" the drop (after the pre-fill), "after" it, or "none"
 	Maint string `json:"maint,omitempty"`
+	// rotate: if non-zero, Resize the dropped capacity (per worker) to RD after the drop of ID, before the final fill
+	RD int `json:"rd,omitempty"`
+	// rotate: finish with a CheckTrace of ID (judged like a "trace" op)
+	Look bool `json:"look,omitempty"`
 	// resize (per-worker sizes)
 	K int `json:"k,omitempty"`
 	D int `json:"d,omitempty"`
@@ -80,7 +84,7 @@ func genC31(t *rapid.T) c31Case {
 	weights := map[string][]int{
 		//        keep drop many fill rot span trace resize small interval ttl
 		"kept":  {12, 4, 0, 0, 0, 11, 7, 3, 3, 0, 0},
-		"mixed": {7, 6, 1, 3, 2, 9, 5, 2, 2, 1, 2},
+		"mixed": {7, 6, 1, 3, 3, 9, 6, 2, 2, 1, 2},
 	}[c.Profile]
 	total := 0
 	for _, w := range weights {
@@ -108,8 +112,12 @@ func genC31(t *rapid.T) c31Case {
 		case 4:
 			// aimed scenario step: fill to Pct %, maintenance (future generation starts), drop ID, fill to 125 %, maintenance (rotation)
 			// (Maint "none"/"after": the burst arrives between two maintenance cycles)
+			// RD != 0: a config reload resizes the dropped cache to RD (per worker) right after the drop of ID, i.e. while
+			// the future generation is already filling; grow, shrink and same-size all occur.
 			return c31Op{Op: "rotate", ID: id, Pct: rapid.SampledFrom([]int{52, 52, 60, 82}).Draw(t, "pre"),
-				Maint: rapid.SampledFrom([]string{"before", "before", "before", "before", "none", "after"}).Draw(t, "maint")}
+				Maint: rapid.SampledFrom([]string{"before", "before", "before", "before", "none", "after"}).Draw(t, "maint"),
+				RD:    rapid.SampledFrom([]int{0, 0, 64, 256, 1024}).Draw(t, "rd"),
+				Look:  rapid.IntRange(0, 3).Draw(t, "look") != 0}
 		case 5:
 			return c31Op{Op: "span", ID: id, Kind: rapid.IntRange(0, 2).Draw(t, "kind")}
 		case 6:
@@ -363,6 +371,39 @@ func c31Drive(c c31Case, salt int) *c31Run {
 			}
 		}
 		fillTo := func(pct int) { bulk(pct*cur.slots/100 - cur.n - len(pending)) }
+		// ids whose latest drop record sits in a future generation that was
+		// already filling when a Resize changed the dropped capacity
+		type pre struct {
+			gen int
+			dir string
+		}
+		preResize := map[string]pre{}
+		curD := c.D
+		doResize := func(step, k, d int) {
+			if err := sc.Resize(mkCfg(k, d)); err != nil {
+				run.violate("C31/resize/error", "step %d: %v", step, err)
+			}
+			if len(lru) > k {
+				lru = lru[len(lru)-k:]
+				run.shrinks++
+			}
+			K = k
+			// the new capacity applies to generations created from now on; a
+			// future generation that is already filling keeps its size and its records
+			capNext = d
+			if d != curD && fut != nil && !fut.tainted {
+				dir := "grow"
+				if d < curD {
+					dir = "shrink"
+				}
+				for id := range recs {
+					if fut.members[id] {
+						preResize[id] = pre{fut.gen, dir}
+					}
+				}
+			}
+			curD = d
+		}
 		find := func(id string) int {
 			for i := range lru {
 				if lru[i].id == id {
@@ -426,11 +467,21 @@ func c31Drive(c c31Case, salt int) *c31Run {
 			switch {
 			case mustRecent || mustFilterA:
 				run.classes["dropped:must(recent-set or current generation)"]++
+				shape := ""
+				if pr, ok := preResize[id]; ok && mustFilterA && pr.gen == cur.gen {
+					// recorded above 50 % load, then a capacity-changing Resize, then a rotation, now looked up
+					run.classes["dropped:must(recorded before a capacity-changing resize, rotated since; "+pr.dir+")"]++
+					if !mustRecent {
+						run.classes["dropped:must(recorded before a capacity-changing resize, rotated since; "+pr.dir+"; filter only)"]++
+						shape = "/after-capacity-change"
+					}
+				}
 				if ans != "dropped" {
 					sub := "forgotten"
 					if ans == "kept" {
 						sub = "answered-kept"
 					}
+					sub += shape
 					run.violate("C31/dropped/"+kind+"/"+sub, "step %d %s(%s) at %v answered %q; recent-set=%v current-generation=%v", step, op.Op, id, t, ans, mustRecent, mustFilterA)
 				}
 			case ki >= 0:
@@ -531,8 +582,16 @@ func c31Drive(c c31Case, salt int) *c31Run {
 				if op.Maint == "after" {
 					sleep(time.Duration(c.Interval))
 				}
+				if op.RD >= 4 {
+					settle(0)
+					doResize(i, K, op.RD)
+				}
 				fillTo(125)
 				sleep(time.Duration(c.Interval))
+				if op.Look {
+					lookup(i, c31Op{Op: "trace", ID: op.ID})
+					settle(0)
+				}
 				continue
 			case "span", "trace":
 				if op.ID >= 0 {
@@ -542,15 +601,7 @@ func c31Drive(c c31Case, salt int) *c31Run {
 				if op.K < 1 || op.D < 4 {
 					continue
 				}
-				if err := sc.Resize(mkCfg(op.K, op.D)); err != nil {
-					run.violate("C31/resize/error", "step %d: %v", i, err)
-				}
-				if len(lru) > op.K {
-					lru = lru[len(lru)-op.K:]
-					run.shrinks++
-				}
-				K = op.K
-				capNext = op.D
+				doResize(i, op.K, op.D)
 			case "advance":
 				d := time.Millisecond
 				switch op.Adv {
